@@ -209,7 +209,8 @@ def gen_cases(seed, chunk, n, tier):
                 b = np.array(b)
                 a.blocks[s] = (b + 8 * np.eye(b.shape[0])).astype(dtype)
             rhs = gen.rand_array(rng, sym, indices=[a.indices[0]], fermi=fermi, static=static, dtype=dtype,
-                                 keep=rng.choice([0.6, 1.0]), label=rng.randint(1, 30))
+                                 keep=rng.choice([0.6, 1.0]), label=rng.randint(1, 30),
+                                 pending=fermi and rng.random() < 0.5)
             env = {"x": a, "rhs": rhs}
             steps = [{"out": ["sol"], "op": "solve", "in": ["x", "rhs"], "params": {}}]
             name = "x"
